@@ -84,7 +84,9 @@ ValExprs == {
   Cat(sA, IfX(Cmp, sA, sB), TRUE),
   FCallX("std.itoa", <<i10>>), FCallX("regsub", <<idA, sRe, sB>>), FCallX("now", <<>>),
   IfX(Cmp, sA, Cat(sA, idB, TRUE)), IfX(Not, idA, sB),
-  Not, Cmp, Group(Cmp), Prefix("-", i10)
+  Not, Cmp, Group(Cmp), Prefix("-", i10),
+  Group(Infix("&&", Group(Cmp), Prefix("!", Group(Mat)))),                        \* nested groups, prefix on a group
+  Prefix("!", Group(Infix("||", Cmp, Not)))
 }
 SomeVals == {sA, Cat(sA, idB, FALSE), FCallX("std.itoa", <<i10>>)}
 
@@ -95,6 +97,7 @@ CondExprs == {
   Infix("||", Infix("&&", Cmp, Not), Mat),                       \* && binds tighter
   Infix("&&", Group(Infix("||", Cmp, Mat)), Not),                \* grouping needed
   Prefix("!", Group(Infix("&&", Cmp, Mat))),
+  Infix("||", Group(Infix("&&", Group(Cmp), Not)), Prefix("!", Group(Group(Mat)))),
   Infix("&&", Infix("&&", Infix("<", Id("var.i"), i10), Infix(">=", Id("var.i"), iHex)), Infix("<=", Id("var.f"), f15)),
   Infix("==", idA, Cat(sA, idB, TRUE)),
   Infix("||", Infix("&&", Infix("==", idA, sWide), Infix("~", idB, sWide)), Infix("!=", idC, sWide))   \* wraps
